@@ -67,6 +67,12 @@ CHECKS = {
         text="TLC computes ciphertext and tag for (IV length 1..64 incl. all-0xff IVs and an IV it constructs so that the 32-bit counter wraps) x (AAD, plaintext) lengths 0..80 (all pairs in thorough, boundary grid + seeded sample in quick); the helper must return exactly these, decrypt the specification's ciphertext to exactly the plaintext, agree with the standard library GCM over the same block cipher, leave caller memory untouched, and change the recomputed tag under every single-bit change of IV, AAD and ciphertext.",
         note="Exploration over enumerated lengths and three content families; trusts TLC + Bitwise and SM4.tla. GCM.tla itself is cross-checked on every case against crypto/cipher's GCM over the real block cipher.",
         ref="DESIGN.md section 5 C12"),
+    "C13": dict(
+        level="exploration",
+        technique="TLA+ transcription of the GM/T 0003.3 key exchange (x-bar truncation, t, V, KDF, S1/S2 with fixed 32-byte coordinates) over ECurve/BigNat/SM3 evaluated by TLC as a table spec; replayed into KeyExchangeA/KeyExchangeB",
+        text="TLC computes K, S1, S2 for both roles (asserting on the specification that initiator and responder reach the same point) over random and boundary keys, identities of 0..8191 bytes, key lengths 1..1024, and - found by TLC search - long-term, ephemeral and shared points whose coordinates have leading zero bytes; both real parties must return exactly these values; a peer ephemeral value off the curve or at infinity must give an error.",
+        note="Exploration over enumerated cases on the real curve only (keyExchange is hard-wired to P256Sm2). Trusts BigInteger, SM3.tla.",
+        ref="DESIGN.md section 5 C13"),
     "C15": dict(
         level="fault_enumeration",
         technique="TLA+ spec TLCPPeer (endpoint flight grammar as a state machine + one peer deviation), every (role, position, deviation) explored by TLC to its verdict; each case realised by a message-level interposer between the endpoint under test and an honest gmtls peer",
